@@ -11,7 +11,7 @@ from vf import specfun as S
 from vf import specfun_k as K
 from vf import refmodel
 from vf.specfun import args as A, real_in, complex_in, near, integer, half_integer, choice
-from vf.specfun_k import RG, Custom, dyadic, near_int, near_half_int, near_npint, polar, polar_log, uniform, uniform_bits, \
+from vf.specfun_k import HP, RG, Custom, dyadic, near_int, near_half_int, near_npint, polar, polar_log, uniform, uniform_bits, \
     one_of, flat, coincident, avoid_npint
 from vf.catalog import R, C, I, raw_from_float, canon, raw_rand
 
@@ -30,7 +30,7 @@ LEVEL_TEXT = ('exploration: ~4*10^3 (quick) / ~10^5 (thorough) evaluations over 
 LEVEL_NOTE = ('trusted base: Fraction arithmetic (exact cells); released mpmath 1.3.0 + the tree at 3p+300 bits as consensus '
               '(a defect shared by both at all precisions is invisible); inputs not generated are not covered')
 TECHNIQUE = 'runtime reference-model monitor: exact rational oracle for terminating series, consensus oracle otherwise'
-SHARD_TIMEOUT = {'quick': 1500, 'thorough': 4500}
+SHARD_TIMEOUT = {'quick': 2400, 'thorough': 6000}
 CASES = {'quick': 400, 'thorough': 8000}
 BUDGET = {'quick': 50, 'thorough': 420}
 NSHARDS = 16
@@ -89,7 +89,16 @@ def gbinom(r, k):
 
 
 def exact_poly(name, n, pars, x):
-    """orthogonal polynomials of integer degree by their three-term recurrences / explicit sums (independent of 2F1 forms)"""
+    """orthogonal polynomials of integer degree by their three-term recurrences / explicit sums (independent of 2F1 forms);
+    negative degrees through the reflections P_-n-1 = P_n, T_-n = T_n, U_-n-2 = -U_n (U_-1 = 0)"""
+    if n < 0:
+        if name == 'legendre':
+            return exact_poly(name, -n - 1, pars, x)
+        if name == 'chebyt':
+            return exact_poly(name, -n, pars, x)
+        if name == 'chebyu':
+            return Fraction(0) if n == -1 else -exact_poly(name, -n - 2, pars, x)
+        raise ValueError('no polynomial reflection for negative degree of ' + name)
     if name == 'legendre':
         p0, p1 = Fraction(1), x
         if n == 0:
@@ -208,11 +217,25 @@ def exact_check(tree_mp, rec, prop, fname, label, p, call, exact, case):
     rec.sample(case)
     rec.event('results compared with an exact Fraction value')
     if got is None:
-        rec.undecided('non-real or non-finite result for a real terminating series', case)
+        try:
+            nonfinite = not tree_mp.isfinite(val)
+        except Exception:
+            nonfinite = False
+        if nonfinite:
+            # inf / nan for a polynomial value that exists (exact Fraction): unbounded relative error
+            rec.violation(key + '/non-finite-result', '%s returns %s at prec %d for a terminating series with rational parameters '
+                          '(exact value %s)' % (fname, str(val)[:20], p, str(float(exact))), case, observed=str(val)[:60], expected='%.30g' % float(exact))
+            return 'violated'
+        rec.undecided('non-real result for a real terminating series', case)
         return 'undecided'
     if exact == 0:
         if got == 0:
             return 'held'
+        if case.get('z') in ([0, 1], [1, 1], [-1, 1]):
+            # structural zero of the polynomial at 0 / +-1: only 0 has a bounded relative error
+            rec.violation(key + '/nonzero-at-structural-zero', '%s returns %s at prec %d where the polynomial is exactly 0' % (fname, str(val)[:30], p),
+                          case, observed=str(val)[:60], expected='0')
+            return 'violated'
         rec.undecided('exact value is zero', case)
         return 'undecided'
     err = abs(got - exact) / abs(exact) * (1 << p)            # exact, in units of 2^-p
@@ -279,7 +302,7 @@ def make_pfq_cell(fname, label, nup, nlow, nlo, nhi, zlo, zhi, dens=(1, 2, 3, 4,
 
 
 def make_poly_cell(fname, label, npar, nlo, nhi, xlo, xhi, par_lo=-3, par_hi=6, dens=(1, 2, 4, 8, 16), positive_par=False,
-                   heavy=False, par_gt=None, xgen=None):
+                   heavy=False, par_gt=None, xgen=None, weight=1):
     """orthogonal polynomial of integer degree, dyadic rational parameters passed as exact mpf (these functions convert their
     parameters with ctx.convert, which does not take (p, q) tuples), dyadic argument"""
     def run(tree_mp, rec, prop, p, n, pars, x, frm):
@@ -303,7 +326,7 @@ def make_poly_cell(fname, label, npar, nlo, nhi, xlo, xhi, par_lo=-3, par_hi=6, 
             pars = [_rand_rational(r, par_lo, par_hi, dens, positive=positive_par) for _ in range(npar)]
             if par_gt is None or all(a > par_gt for a in pars):
                 break
-        x = xgen(r, bits) if xgen else _rand_dyadic_z(r, bits, xlo, xhi)
+        x = xgen(r, bits, p) if xgen else _rand_dyadic_z(r, bits, xlo, xhi)
         return run(tree_mp, rec, cell[0], p, n, pars, x, 'mpf')
 
     def rp(tree_mp, rec, c, cell):
@@ -311,7 +334,7 @@ def make_poly_cell(fname, label, npar, nlo, nhi, xlo, xhi, par_lo=-3, par_hi=6, 
         qs = [Fraction(unjson_int(q[0]), unjson_int(q[1])) for q in c['params']]
         x = Fraction(unjson_int(c['z'][0]), unjson_int(c['z'][1]))
         return run(tree_mp, rec, cell[0], c['prec'], int(qs[0]), qs[1:], x, c.get('form', 'tuple'))
-    cell = Custom('exact/' + label, check, heavy=heavy, tmax=8)
+    cell = Custom('exact/' + label, check, heavy=heavy, tmax=8, weight=weight)
     cell.replay = rp
     return cell
 
@@ -889,9 +912,22 @@ def t_pcf(name):
     return regs
 
 
-def _tiny_x(r, bits):
+def _tiny_x(r, bits, p=None):
     bits = max(2, min(bits, 200))
     return Fraction(r.choice([-1, 1]) * ((1 << (bits - 1)) | r.getrandbits(bits - 1) | 1), 1 << (bits + r.randint(4, 150)))
+
+
+def _special_x(r, bits, p):
+    """0, +-1, +-2^-k and m*2^-k for k up to 3p + 30 (the thresholds of the near-zero special cases scale with p)"""
+    t = r.random()
+    if t < 0.2:
+        return Fraction(0)
+    if t < 0.35:
+        return Fraction(r.choice([-1, 1]))
+    k = r.randint(1, 3 * p + 30)
+    if t < 0.6:
+        return Fraction(r.choice([-1, 1]), 2 ** k)
+    return Fraction(r.choice([-1, 1]) * r.choice([3, 5, 7, 11, 1023, (1 << 52) + 1]), 2 ** k)
 
 
 def exact_cells():
@@ -920,25 +956,35 @@ def exact_cells():
                   make_pfq_cell('hyper', 'terminating/2F4', 2, 4, 1, 30, -200.0, 200.0),
                   make_pfq_cell('hyper', 'terminating/4F1', 4, 1, 1, 15, -2.0, 2.0)],
         'legendre': [make_poly_cell('legendre', 'int-degree/[-1,1]', 0, 0, 80, -1.0, 1.0),
+                     make_poly_cell('legendre', 'neg-int-degree/[-1,1]', 0, -40, -1, -1.0, 1.0),
+                     make_poly_cell('legendre', 'any-int-degree/x-in-{0,+-1,m*2^-k}', 0, -30, 30, 0, 0, xgen=_special_x, weight=3),
                      make_poly_cell('legendre', 'int-degree/tiny-argument', 0, 0, 40, 0, 0, xgen=_tiny_x),
                      make_poly_cell('legendre', 'int-degree/outside', 0, 0, 60, -20.0, 20.0),
                      make_poly_cell('legendre', 'int-degree-81..400/[-1,1]', 0, 81, 400, -1.0, 1.0, heavy=True)],
         'chebyt': [make_poly_cell('chebyt', 'int-degree/[-1,1]', 0, 0, 80, -1.0, 1.0),
+                   make_poly_cell('chebyt', 'neg-int-degree/[-1,1]', 0, -40, -1, -1.0, 1.0),
+                   make_poly_cell('chebyt', 'any-int-degree/x-in-{0,+-1,m*2^-k}', 0, -30, 30, 0, 0, xgen=_special_x, weight=2),
                    make_poly_cell('chebyt', 'int-degree/tiny-argument', 0, 0, 40, 0, 0, xgen=_tiny_x),
                    make_poly_cell('chebyt', 'int-degree/outside', 0, 0, 60, -20.0, 20.0),
                    make_poly_cell('chebyt', 'int-degree-81..400/[-1,1]', 0, 81, 400, -1.0, 1.0, heavy=True)],
         'chebyu': [make_poly_cell('chebyu', 'int-degree/[-1,1]', 0, 0, 80, -1.0, 1.0),
+                   make_poly_cell('chebyu', 'neg-int-degree/[-1,1]', 0, -40, -1, -1.0, 1.0),
+                   make_poly_cell('chebyu', 'any-int-degree/x-in-{0,+-1,m*2^-k}', 0, -30, 30, 0, 0, xgen=_special_x, weight=2),
                    make_poly_cell('chebyu', 'int-degree/tiny-argument', 0, 0, 40, 0, 0, xgen=_tiny_x),
                    make_poly_cell('chebyu', 'int-degree/outside', 0, 0, 60, -20.0, 20.0)],
         'hermite': [make_poly_cell('hermite', 'int-degree/moderate', 0, 0, 60, -10.0, 10.0),
+                    make_poly_cell('hermite', 'int-degree/x-in-{0,+-1,m*2^-k}', 0, 0, 30, 0, 0, xgen=_special_x),
                     make_poly_cell('hermite', 'int-degree/tiny-argument', 0, 0, 40, 0, 0, xgen=_tiny_x),
                     make_poly_cell('hermite', 'int-degree/large-x', 0, 0, 40, -2000.0, 2000.0),
                     make_poly_cell('hermite', 'int-degree-61..300/moderate', 0, 61, 300, -20.0, 20.0, heavy=True)],
         'laguerre': [make_poly_cell('laguerre', 'int-degree/rational-a', 1, 0, 40, -60.0, 60.0),
+                     make_poly_cell('laguerre', 'int-degree/rational-a/x-in-{0,+-1,m*2^-k}', 1, 0, 30, 0, 0, xgen=_special_x),
                      make_poly_cell('laguerre', 'int-degree/rational-a>-1/pos-x', 1, 0, 60, 0.0, 100.0, par_gt=-1)],
         'gegenbauer': [make_poly_cell('gegenbauer', 'int-degree/rational-a>0/[-1,1]', 1, 0, 40, -1.0, 1.0, positive_par=True),
+                       make_poly_cell('gegenbauer', 'int-degree/rational-a>0/x-in-{0,+-1,m*2^-k}', 1, 0, 30, 0, 0, positive_par=True, xgen=_special_x),
                        make_poly_cell('gegenbauer', 'int-degree/rational-a>0/outside', 1, 0, 30, -20.0, 20.0, positive_par=True)],
         'jacobi': [make_poly_cell('jacobi', 'int-degree/rational-a,b>-1/[-1,1]', 2, 0, 40, -1.0, 1.0, par_gt=-1),
+                   make_poly_cell('jacobi', 'int-degree/rational-a,b>-1/x-in-{0,+-1,m*2^-k}', 2, 0, 30, 0, 0, par_gt=-1, xgen=_special_x),
                    make_poly_cell('jacobi', 'int-degree/rational-a,b>-1/outside', 2, 0, 30, -20.0, 20.0, par_gt=-1),
                    make_poly_cell('jacobi', 'int-degree/integer-a,b-in--6..6/[-1,1]', 2, 0, 12, -1.0, 1.0, par_lo=-6, par_hi=6, dens=(1,)),
                    make_poly_cell('jacobi', 'int-degree/rational-a,b-any/[-1,1]', 2, 0, 20, -1.0, 1.0, par_lo=-6, par_hi=6)],
@@ -956,6 +1002,22 @@ TABLE = {
 }
 for _f, _cells in exact_cells().items():
     TABLE[_f] = TABLE[_f] + _cells
+
+
+# high-precision stratum (2500 / 3000 / 3500 bits): exact cells are cheap there (no reference evaluation)
+TABLE['hyp1f1'] = TABLE['hyp1f1'] + [HP(RG('hp/generic/|z|<64-real', A(p_gen, p_low, uniform_bits(-64.0, 64.0)))),
+                                     HP(make_pfq_cell('hyp1f1', 'hp/terminating/n<=40', 1, 1, 0, 40, -20.0, 20.0, via='hyp1f1', form='mixed'))]
+TABLE['hyp2f1'] = TABLE['hyp2f1'] + [HP(RG('hp/generic/|z|<=0.8-real', A(p_gen, p_gen, p_low, z_in))),
+                                     HP(RG('hp/generic/0.8..1-real(1-z)', A(p_gen, p_gen, p_low, uniform_bits(0.8, 0.9999)))),
+                                     HP(make_pfq_cell('hyp2f1', 'hp/terminating/|z|<1', 2, 1, 0, 40, -0.95, 0.95, via='hyp2f1', form='mixed'))]
+TABLE['hyp0f1'] = TABLE['hyp0f1'] + [HP(RG('hp/b-generic/|z|<128-real', A(p_low, uniform_bits(-128.0, 128.0))))]
+TABLE['hyperu'] = TABLE['hyperu'] + [HP(RG('hp/generic/large-pos', A(p_gen, p_gen, uniform_bits(2600.0, 6000.0))))]
+for _f in ('legendre', 'chebyt', 'chebyu'):
+    TABLE[_f] = TABLE[_f] + [HP(make_poly_cell(_f, 'hp/any-int-degree/[-1,1]', 0, -30, 60, -1.0, 1.0)),
+                             HP(make_poly_cell(_f, 'hp/any-int-degree/x-in-{0,+-1,m*2^-k}', 0, -30, 30, 0, 0, xgen=_special_x))]
+TABLE['hermite'] = TABLE['hermite'] + [HP(make_poly_cell('hermite', 'hp/int-degree/moderate', 0, 0, 60, -10.0, 10.0))]
+TABLE['laguerre'] = TABLE['laguerre'] + [HP(make_poly_cell('laguerre', 'hp/int-degree/rational-a', 1, 0, 40, -60.0, 60.0))]
+TABLE['jacobi'] = TABLE['jacobi'] + [HP(make_poly_cell('jacobi', 'hp/int-degree/rational-a,b>-1/[-1,1]', 2, 0, 30, -1.0, 1.0, par_gt=-1))]
 
 
 def shards(tier, seed):
